@@ -28,8 +28,8 @@ def showOut : Out → String
   | .issued id => "issued " ++ toString id
   | .delivered c rk => "delivered " ++ toString c ++ " " ++ showRKind rk
   | .mismatch c rk => "mismatch " ++ toString c ++ " " ++ showRKind rk
-  | .ignored => "ignored"
-  | .stale => "stale"
+  | .ignored => "nobody"
+  | .stale => "nobody"
   | .cancelled c => "cancelled " ++ toString c
   | .noop => "noop"
 
@@ -39,10 +39,20 @@ def showROut : ROut → String
 
 def nat (s : String) : Nat := s.toNat?.getD 0
 
-def step (w : Wire) (line : String) : Wire × String :=
+structure DSt where
+  w : Wire := {}
+  dead : Bool := false
+
+/-- the harness's barrier: the sentinel caller 99 (if armed) is answered right behind the message under test -/
+def barrier (w : Wire) : Wire :=
+  match w.c.waiting.find? (·.caller = 99) with
+  | some s => (wresp w s.id .metaAck 0 0).1
+  | none => w
+
+def stepW (w : Wire) (line : String) : Wire × String :=
   let r (e : REv) : Wire × String := let (t', o) := rstep w.t e; ({ w with t := t' }, showROut o)
   match words line with
-  | ["reset"] => ({}, "ok")
+  | ["sync"] => let (w', o) := wreq w 99 .metadata {}; (w', showOut o)
   | "req" :: c :: k :: rest =>
     (match parseKind k with
     | some k =>
@@ -63,8 +73,9 @@ def step (w : Wire) (line : String) : Wire × String :=
         | [a, b] => (nat a, nat b)
         | [a] => (0, nat a)
         | _ => (0, 0)
+      let isSentinel := (w.c.waiting.any fun x => x.caller = 99 ∧ x.id = nat id ∧ alGet (nat id) w.c.pending = some 99)
       let (w', o) := wresp w (nat id) rk rsid ral
-      (w', showOut o)
+      (if isSentinel then w' else barrier w', showOut o)
     | none => (w, "bad-op"))
   | ["cancel", c] => let (w', o) := wcancel w (nat c); (w', showOut o)
   | ["subdps", a] => r (.subDps (nat a))
@@ -82,5 +93,14 @@ def step (w : Wire) (line : String) : Wire × String :=
   | ["drainackc", a] => r (.drainAckc (nat a))
   | ["drainmeta", a, n] => r (.drainMeta (nat a) (nat n))
   | _ => (w, "bad-op")
+
+def step (d : DSt) (line : String) : DSt × String :=
+  match words line with
+  | ["reset"] => ({}, "ok")
+  | _ =>
+    if d.dead then (d, "dead") else
+    let (w', o) := stepW d.w line
+    -- a wrong-typed answer to the keepalive ping (caller 0) ends the connection
+    ({ w := w', dead := o.startsWith "mismatch 0 " }, o)
 
 end Driver.Wire
